@@ -12,3 +12,15 @@ add("C05",
     "Seeded search over note/pedal/sostenuto/CC120-123/panic/reset-state/program/time histories; a reference model written from the MIDI rules of the property predicts the sounding set after every call and is compared with {users of keyed-on chip channels}; every run ends with the bounded-liveness epilogue (release all, render 30 ms, nothing keyed on).",
     "Executor keeps polyphony below the channel count (property precondition) by skipping note-ons the model says would exceed it; auto-arpeggio off; epilogue renders 30 ms + 2 frames.",
     "deterministic simulation: seeded histories + time slicing, reference-model comparison + bounded liveness", "DESIGN.md 2/C05")
+add("C06",
+    "Seeded search over long note/pedal histories (time advances up to 30 s each, 10 simulated minutes, chips 1..8, four allocation modes, arpeggio on/off); the H1 snapshots before and after every accepted note-on are related: with an idle channel the note lands on a channel without (other) users and no bystander's (location, channel, sustain bits) changes; with none idle a held-only channel is taken before a key-down one.",
+    "A key re-struck while sounding frees its own channel inside the call; that channel counts as free. Beyond 10 simulated minutes of a key held down the ageing arithmetic of the scorer is not claimed (the property bounds histories at 10 minutes).",
+    "deterministic simulation: seeded histories + time slicing, before/after state relation", "DESIGN.md 2/C06")
+add("C12",
+    "Seeded search over bank layouts (colliding MSB/LSB, blank entries, unique operator bytes) and bank-select/program/mode/drum-part/bank-API histories; a reference bank map + MIDI state resolves every probe note-on to the expected instrument by the three-step rule and compares with the timbre cached and the patch registers written for the chosen chip channel; rejected notes must not key on; drum pitch is decoded from the F-number writes.",
+    "SFX kits (bank LSB 128..255) cannot be addressed through OPN2_BankId (fields <= 127), so API edits are limited to kits < 128. Each probe note starts from a silent synth (panic + 50 ms).",
+    "deterministic simulation: seeded histories, reference-model (map) comparison on the register tap", "DESIGN.md 2/C12")
+add("C19",
+    "SysEx messages treated as packets on a lossy link: the recognised messages, correct and corrupted in transit (12 corruption kinds) plus random strings, delivered through opn2_rt_systemExclusive and inside a playing SMF, in every mode / controller state / with sounding and pedal-held notes / device ids 0..15; a reference written from the message definitions decides acceptance; rejected messages must leave the H1 snapshot bit-identical and cause no register write, accepted ones must show the documented effect.",
+    "Roland/Yamaha messages addressed to 0x7F and messages with bit-7 data bytes are 'unspecified' (either verdict allowed, consistency still required). GM System Off: mode after it is not checked (the property does not say which mode follows).",
+    "deterministic simulation: message corruption (loss/dup/flip) + reference decision procedure + state-unchanged oracle", "DESIGN.md 2/C19")
